@@ -2,6 +2,7 @@ package wrap
 
 import (
 	"fmt"
+	"math"
 
 	"github.com/go-text/typesetting/di"
 	"github.com/go-text/typesetting/shaping"
@@ -616,7 +617,7 @@ func (m *model) checkC04(res *result, p *parsed, rep *reporter) (info c04info) {
 			if m.runStart[e] {
 				f = findingRunBoundaryC04
 			}
-			if bad, val, fnd := tooWide(s, e, width-truncAdv, f); bad {
+			if bad, val, fnd := tooWide(s, e, subWidth(width, truncAdv), f); bad {
 				rep.report("C04/truncated-width", fnd, "call %d: visible part [%d,%d) measures %d > width %d - truncator %d", l.call, s, e, val, width, truncAdv)
 			}
 		} else if bad, val, fnd := tooWide(s, e, width, unusable(prevStart, e)); bad {
@@ -656,7 +657,7 @@ func (m *model) checkC04(res *result, p *parsed, rep *reporter) (info c04info) {
 		}
 		lineLimit := width
 		if l.trunc >= 0 {
-			lineLimit = width - truncAdv
+			lineLimit = subWidth(width, truncAdv)
 		}
 		if _, strictLine := m.measure(s, e); strictLine.Ceil() > lineLimit {
 			// the line itself (possibly) exceeds its budget: an over-wide unbreakable unit (or the
@@ -669,7 +670,7 @@ func (m *model) checkC04(res *result, p *parsed, rep *reporter) (info c04info) {
 		if truncLine {
 			info.truncDecisions++
 			if !(e2 == m.n && !cfg.TextContinues) {
-				limit = width - truncAdv
+				limit = subWidth(width, truncAdv)
 			}
 		} else {
 			info.decisions++
@@ -689,7 +690,7 @@ func (m *model) checkC04(res *result, p *parsed, rep *reporter) (info c04info) {
 			}
 			e2 := m.nextCandidate(l.s, cfg.BreakPolicy == shaping.Never)
 			if e2 > 0 {
-				limit := l.o.width - truncAdv
+				limit := subWidth(l.o.width, truncAdv)
 				if e2 == m.n && !cfg.TextContinues {
 					limit = l.o.width
 				}
@@ -720,4 +721,13 @@ func (m *model) nextValidOppOrEnd(e int) int {
 		return m.n
 	}
 	return q
+}
+
+// subWidth is width - adv without wrapping around (widths go up to MaxInt; a truncator advance is not
+// negative in the generated cases, the guard is for decoded replay files).
+func subWidth(width, adv int) int {
+	if adv < 0 && width > math.MaxInt+adv {
+		return math.MaxInt
+	}
+	return width - adv
 }
